@@ -44,6 +44,14 @@ def gen_lines(rnd, tier):
                 L.append("verify|%s|1|0|1:M%sp:%s%sp|0" % (kd[0], si, kd[2], sc))
         for o, v, k in itertools.product(range(3), (0, 1), (0, 1)):
             L.append("verify|%s|1|0|1:M%sp:D0.%d.%d.%dp|0" % ("oc"[(i + o + v + k) % 2], si, o, v, k))
+    # ... and once with implementations that mark parameters positional-only (PEP 570 `/`), which changes no positional call shape
+    for i, si in enumerate(SIGS):
+        for j, sc in enumerate(SIGS):
+            if sc.startswith("0.0."):
+                continue
+            kinds = ("o:F", "o:G", "c:G") if tier == "thorough" else (("o:F", "o:G", "c:G")[(i + 2 * j) % 3],)
+            for kd in kinds:
+                L.append("verify|%s|1|0|1:M%s:%s%s%s|0" % (kd[0], si, kd[2], sc, "st"[(i + j) % 2]))
     n = {"quick": 1500, "thorough": 40000}[tier]
     for _ in range(n):
         vt = rnd.choice("oc")
@@ -70,7 +78,7 @@ def gen_lines(rnd, tier):
                 if c[0] in "FG":
                     # the implementation's names: the interface's own (verbatim over the common positions), the same
                     # names permuted, or unrelated ones (the other scheme)
-                    c += rnd.choice(["p", "p", "p", "q", ""]) if inaming else rnd.choice(["", "", "", "p", "q"])
+                    c += rnd.choice(["p", "p", "p", "q", "", "s"]) if inaming else rnd.choice(["", "", "", "p", "q", "s", "t"])
             elems.append("%d%s:%s:%s" % (j, "z" if rnd.random() < 0.15 else "", d, c))
         if k >= 2 and rnd.random() < 0.3:
             # verified, then an ancestor is given a further base that brings the first `nextra` members, then verified again
@@ -111,7 +119,7 @@ def to_model(line):
     for e in f[4].split(";"):
         n, d, c = e.split(":")
         n = n.rstrip("z")            # listed under an alias: the contract is about the listed name
-        d, c = d.rstrip("pq"), c.rstrip("pq")            # parameter names: the model (call shapes, arities) has none
+        d, c = d.rstrip("pq"), c.rstrip("pqst")          # parameter names / positional-only markers: the model (call shapes, arities) has none
         if c == "P" and f[1] == "o":
             c = "N"            # on an instance the property has been evaluated: a plain (non-callable) value
         if d == "A" and c != "X":
@@ -137,6 +145,9 @@ def count_naming(chk, line):
     for e in line.split("|")[4].split(";"):
         n, d, c = e.split(":")
         if d[0] != "M" or c[0] not in "FGD":
+            continue
+        if c[-1] in "st":
+            chk.count("implementations_with_positional_only_parameters")
             continue
         dn, cn = d[-1] if d[-1] in "pq" else "", c[-1] if c[-1] in "pq" else ""
         (ri, oi, vi, ki), (rc, oc, vc, kc) = [tuple(int(x) for x in t.rstrip("pq")[1:].split(".")) for t in (d, c)]
